@@ -9,6 +9,7 @@ import (
 	"os"
 
 	"verif/internal/drv"
+	"verif/internal/enga"
 	"verif/internal/engc"
 )
 
@@ -27,6 +28,8 @@ func main() {
 			usage()
 		}
 		drv.Exit(replay(os.Args[2]))
+	case "C01", "C02", "C03", "C05", "C06", "C07", "C08":
+		drv.Exit(enga.Run(os.Args[1], tier()))
 	case "C15":
 		drv.Exit(engc.RunC15(tier()))
 	case "C16":
@@ -58,6 +61,8 @@ func replay(file string) int {
 	switch head.Engine {
 	case "disksim", "realcli", "strace":
 		return engc.Replay(file)
+	case "bandsim":
+		return enga.Replay(file)
 	}
 	drv.Broken("replay file %s names unknown engine %q", file, head.Engine)
 	return drv.ExitBroken
